@@ -400,6 +400,74 @@ Definition exec_call2 (mech : bool) (h : heap) (ps : list param) (body : list st
       end
   end.
 
+(* ---------------------------------------------------------------- calls nested to ANY depth (recursion)
+   A callee body is a list of statements each of which is a simple statement or a call whose own body is again such
+   a list: int f(C v, int k) { v.n = ..; if (k > 0) { int below = f(v, k - 1); println(below, v.n); } return v.n; }
+   unrolls to a chain of RCall's.  Every level binds its parameters in the frame of the level above (bind_in), runs
+   its body in its own frame, writes through its own copy-in parameters first and then through those of ALL the
+   enclosing levels, copies its own copy-in parameters back and stores the result in the frame of the level above -
+   exactly exec_call_in, iterated (the code re-enters evaluate_function_call_impl for every level; a by-value struct
+   parameter is a fresh Variable plus fresh per-member variables in the callee's own scope, call_impl.cpp:5383-5565).
+   Names do not exist in this model: a parameter IS its location, whatever the variables of the callers are called. *)
+Inductive rstmt : Type :=
+| RS (s : sop)
+| RCall (ps : list param) (body : list rstmt) (ret : option (aexp * option aexp))
+| RDecl (s : aexp).          (* T c = s;  a local of the callee: fresh location holding a copy (referred to as AVar) *)
+
+Section Seq.
+  Context {A : Type} (f : heap -> A -> option res).
+  Fixpoint exec_seq (h : heap) (ss : list A) : option res :=
+    match ss with
+    | [] => Some (h, [], [])
+    | s :: ss' =>
+        match f h s with
+        | Some (h1, o1, f1) =>
+            match exec_seq h1 ss' with
+            | Some (h2, o2, f2) => Some (h2, o1 ++ o2, f1 ++ f2)
+            | None => None
+            end
+        | None => None
+        end
+    end.
+End Seq.
+
+(* the end of a call: returned value read in the callee's frame fr, copy-back of the callee's own copy-in parameters
+   thn, result stored through the caller's frame fr0 / write-through list th0 (the tail of exec_call_in) *)
+Definition finish_call (h2 : heap) (fr0 fr : frame) (th0 thn : thru) (out : list line) (fp : list cell)
+           (ret : option (aexp * option aexp)) : option res :=
+  let rv := match ret with Some (e, _) => eval h2 fr e | None => Some (VInt 0) end in
+  match rv, copy_back h2 thn with
+  | Some v, Some (h3, fb) =>
+      match ret with
+      | None => Some (h3, out, fp ++ fb)
+      | Some (_, None) => Some (h3 ++ [v], out, fp ++ fb)
+      | Some (_, Some d) =>
+          match resolve h3 fr0 d with
+          | Some c => match hwrite_t h3 th0 c v with
+                      | Some h4 => Some (h4, out, fp ++ fb ++ fp_of th0 c)
+                      | None => None
+                      end
+          | None => None
+          end
+      end
+  | _, _ => None
+  end.
+
+Fixpoint exec_rstmt (mech : bool) (h : heap) (fr : frame) (th : thru) (s : rstmt) {struct s} : option res :=
+  match s with
+  | RS s' => exec_sop h fr th s'
+  | RCall ps body ret =>
+      match bind_in mech h fr ps [] [] with
+      | None => None
+      | Some (h1, fr1, thn) =>
+          match exec_seq (fun h' s' => exec_rstmt mech h' fr1 (thn ++ th) s') h1 body with
+          | None => None
+          | Some (h2, out, fp) => finish_call h2 fr fr1 th thn out fp ret
+          end
+      end
+  | RDecl s' => match eval h fr s' with Some v => Some (h ++ [v], [], []) | None => None end
+  end.
+
 Inductive op : Type :=
 | OS (s : sop)                                   (* a statement of main *)
 | ONop (n : nat)                                 (* allocates n unused locations (left by the shrinker) *)
@@ -407,6 +475,8 @@ Inductive op : Type :=
 | OCall (ps : list param) (body : list sop)      (* f(args) / recv.m(): generated callee body *)
         (ret : option (aexp * option aexp))      (* return e;  stored into Some d  or a fresh variable *)
 | OCall2 (ps : list param) (body : list stmt)    (* the same with a body that itself makes calls *)
+         (ret : option (aexp * option aexp))
+| OCallR (ps : list param) (body : list rstmt)   (* the same with calls nested to any depth (recursion) *)
          (ret : option (aexp * option aexp)).
 
 Definition exec_op (mech : bool) (h : heap) (o : op) : option res :=
@@ -416,6 +486,7 @@ Definition exec_op (mech : bool) (h : heap) (o : op) : option res :=
   | ODecl s => match eval h [] s with Some v => Some (h ++ [v], [], []) | None => None end
   | OCall ps body ret => exec_call mech h ps body ret
   | OCall2 ps body ret => exec_call2 mech h ps body ret
+  | OCallR ps body ret => exec_rstmt mech h [] [] (RCall ps body ret)
   end.
 
 (* a history; stops at the first statement that cannot be executed (ok = false) *)
